@@ -242,10 +242,80 @@ class Annotator(ast.NodeTransformer):
         return node
 
 
+def collect_signatures(root: Path) -> dict[str, list[str] | None]:
+    """function / method name -> positional parameter names (without self / cls) when EVERY definition of that
+    name in the tree agrees, else None"""
+    sigs: dict[str, list[str] | None] = {}
+    for f in root.rglob("*.py"):
+        tree = ast.parse(f.read_text())
+        for n in ast.walk(tree):
+            if isinstance(n, (ast.FunctionDef, ast.AsyncFunctionDef)):
+                a = n.args
+                names = [x.arg for x in a.posonlyargs + a.args]
+                if names and names[0] in ("self", "cls"):
+                    names = names[1:]
+                val: list[str] | None = names if not a.vararg and not a.posonlyargs else None
+                if n.name in sigs and sigs[n.name] != val:
+                    sigs[n.name] = None
+                elif n.name not in sigs:
+                    sigs[n.name] = val
+    return sigs
+
+
+class KeywordToPositional(ast.NodeTransformer):
+    """keyword arguments of calls to uniquely-signed repo functions become positional where that keeps the order"""
+
+    def __init__(self, sigs) -> None:
+        self.sigs = sigs
+
+    def visit_Call(self, node):
+        self.generic_visit(node)
+        nm = node.func.attr if isinstance(node.func, ast.Attribute) else node.func.id if isinstance(node.func, ast.Name) else None
+        if nm is None or nm[:1].isupper() or self.sigs.get(nm) is None or any(isinstance(a, ast.Starred) for a in node.args) or any(k.arg is None for k in node.keywords):
+            return node
+        params = self.sigs[nm]
+        kws = {k.arg: k for k in node.keywords}
+        i = len(node.args)
+        moved = False
+        while i < len(params) and params[i] in kws:
+            node.args.append(kws[params[i]].value)
+            node.keywords.remove(kws[params[i]])
+            i += 1
+            moved = True
+        return node
+
+
+class PositionalToKeyword(ast.NodeTransformer):
+    """positional arguments (all but the first) of calls to uniquely-signed repo functions become keywords"""
+
+    def __init__(self, sigs) -> None:
+        self.sigs = sigs
+
+    def visit_Call(self, node):
+        self.generic_visit(node)
+        nm = node.func.attr if isinstance(node.func, ast.Attribute) else node.func.id if isinstance(node.func, ast.Name) else None
+        if nm is None or nm[:1].isupper() or nm.startswith("__") or self.sigs.get(nm) is None or any(isinstance(a, ast.Starred) for a in node.args):
+            return node
+        params = self.sigs[nm]
+        if len(node.args) > len(params) or len(node.args) < 2:
+            return node
+        extra = node.args[1:]
+        node.keywords = [ast.keyword(arg=params[1 + j], value=v) for j, v in enumerate(extra)] + node.keywords
+        node.args = node.args[:1]
+        return node
+
+
 def rewrite_tree(root: Path, rename: bool, mode: str = "") -> int:
     n = 0
+    sigs = collect_signatures(root) if mode in ("kw", "pos") else {}
     for f in list(root.rglob("*.py")):
         tree = ast.parse(f.read_text())
+        if mode == "kw":
+            tree = PositionalToKeyword(sigs).visit(tree)
+            ast.fix_missing_locations(tree)
+        if mode == "pos":
+            tree = KeywordToPositional(sigs).visit(tree)
+            ast.fix_missing_locations(tree)
         if rename:
             tree = Renamer().visit(tree)
             ast.fix_missing_locations(tree)
